@@ -991,6 +991,10 @@ func (c *FnCtx) mergeStates(sts []*State) []*State {
 	if len(sts) <= 1 {
 		return sts
 	}
+	if c.con != nil && c.con.Flags["no-merge"] && len(sts) <= 32 {
+		// path-wise exploration: the obligations of small functions stay free of if-then-else terms
+		return sts
+	}
 	var groups [][]*State
 	for _, s := range sts {
 		placed := false
